@@ -670,6 +670,7 @@ static void copy_input_buffer(SequenceControlSet *sequenceControlSet, EbBufferHe
     dst->n_filled_len = src->n_filled_len;
     dst->flags        = src->flags;
     dst->pts          = src->pts;
+    dst->p_app_private = src->p_app_private;
     dst->n_tick_count = src->n_tick_count;
     dst->size         = src->size;
     dst->qp           = src->qp;
